@@ -25,7 +25,7 @@ fn main() {
             3 => Some(255),
             _ => Some(1),
         };
-        cfg.bottom = false;
+        cfg.bottom = i % 3 == 1;
         cases.push(gen_multi_case(&mut r, &cfg));
     }
     run_sys_cases(&mut s, &cases, &|c, obs| {
